@@ -57,6 +57,8 @@ def body(shape, i, name, defined):
         return [m] + ref
     if shape == 2:
         return []
+    if shape == 5:      # an enclosed with ... only (a namespace of its own for its body), then the condition's name again
+        return [m, With(N('oo'), [T('w'), V('w')], only=True)] + ref + [With(N('oo'), ref, only=False)]
     if shape == 3:
         return [m, Let([('q', X('zz'))], ref + [With(N('oo'), ref)])]
     if shape == 4:
@@ -101,7 +103,7 @@ def cases_for(tier, rng):
             rng.shuffle(combos)
             combos = combos[:6000]
         for atoms in combos:
-            shapes = range(5) if n <= 2 else (0, 1, 2, 3 + (hash(str(atoms)) % 2))
+            shapes = range(6) if n <= 2 else (0, 1, 2, 3 + (len(str(atoms)) % 3))
             for shape in shapes:
                 for es in (0, 1, 2):
                     if n == 3 and tier == 'quick' and (es + shape + len(str(atoms))) % 3:
@@ -119,7 +121,7 @@ def cases_for(tier, rng):
         ns = {'zz': plain('ZZ'), 'oo': obj('oo', w=plain('W')), 'ss': lst('ss', [plain('s1')])}
         ns.update(add)
         defined = not name.startswith('undef')
-        for shape in range(5):
+        for shape in range(6):
             out.append(dict(prog=[T('<'), Unless(c, body(shape, 1, name, defined)), T('>')],
                             src=sources(kw=ns), K=0, fk=[]))
         out.append(dict(prog=[T('<'), Call(c), T('|'), Call(c), T('>')], src=sources(kw=ns), K=0, fk=[]))
